@@ -1,6 +1,7 @@
 package main
 
 import (
+	"context"
 	"encoding/json"
 	"fmt"
 	"os"
@@ -8,6 +9,8 @@ import (
 	"strings"
 	"sync"
 	"time"
+
+	"github.com/fullstorydev/emulators/storage/gcsutil"
 
 	"verif/common"
 	"verif/gcs/sched"
@@ -19,7 +22,7 @@ func init() { register("C19", "exploration", runC19) }
 func runC19(run *common.Run) {
 	run.Rule = "case = one execution of the real TransientLockMap by 2-3 worker goroutines (scripts of 2 rounds of Lock/Unlock or Run over keys {a,b}, optionally one scripted Unlock of an unheld key) in which every worker is parked at every verif hook point and moves only when the scheduler grants one step or cancels its context; after every step the real map (VerifLen, VerifSlotFull per key) is compared with the shadow state (holder, refcount, queue per key) and every return value with what the hooks showed. " +
 		"sub graph2 (both tiers) / graph3 (thorough): for every program of the family (all key assignments up to key renaming and worker permutation x {plain, worker 0 unlocks unheld key a between its rounds, last worker unlocks unheld key b first}) the graph of abstract states (per worker: round, hook point, cancel flag; queue order) is explored by replay from the start until every enabled scheduler action of every reached node was executed at least once (a step whose outcome Go's select picks at random, slot free and context cancelled, until both outcomes were seen or 50 executions). exhaustive=true means exactly this: complete transition coverage of those graphs for the families run in this tier (2 workers x 2 keys x 2 rounds with cancellation in quick; additionally 3 x 2 x 2 with cancellation in thorough); path coverage is not claimed. " +
-		"sub walk: seeded random schedules over random 3-worker programs. sub stress: 32 free-running goroutines, 3 keys, random cancellation, race detector, in-critical-section counter per key, empty map at the end. " +
+		"sub walk: seeded random schedules over random 3-worker programs. sub runexit: the callback of Run is left by return nil / return error / panic / runtime.Goexit with 0-2 callers queued on the key: the waiters acquire, a fresh Lock succeeds, the idle map is empty. sub stress: 32 free-running goroutines, 3 keys, random cancellation, race detector, in-critical-section counter per key, empty map at the end. " +
 		"Non-trivial = in the execution some worker queued behind a holder of the same key or a cancel hit a queued worker; distinct by hash of program + schedule + outcomes."
 	run.Assumptions = []string{
 		"worker identity is the goroutine id parsed from runtime.Stack; hook points are those of /repo's verif_on.go and sit outside the map mutex",
@@ -63,8 +66,98 @@ func runC19(run *common.Run) {
 	if run.Replay == nil {
 		run.Exhaustive = complete && run.Violations() == 0
 	}
+	if run.WantSub("runexit") && !run.TooMany() {
+		c19RunExit(run)
+	}
 	if run.WantSub("stress") && !run.TooMany() {
 		c19Stress(run)
+	}
+}
+
+// c19RunExit: however the callback of Run is left - it returns nil, returns an error, panics (recovered further up, as
+// net/http does for a panicking handler) or calls runtime.Goexit - Run must have given the key back: waiters queued on
+// the key acquire it, a fresh Lock succeeds at once, and when nobody holds or awaits anything the map is empty.
+func c19RunExit(run *common.Run) {
+	exits := []string{"return nil", "return error", "panic", "goexit"}
+	idx := 0
+	for _, exit := range exits {
+		for waiters := 0; waiters <= 2; waiters++ {
+			for rep := 0; rep < 3; rep++ {
+				i := idx
+				idx++
+				if !run.Want("runexit", i) || run.TooMany() {
+					continue
+				}
+				m := gcsutil.NewTransientLockMap()
+				inside := make(chan struct{})
+				leave := make(chan struct{})
+				done := make(chan struct{})
+				go func() {
+					defer close(done)
+					defer func() { _ = recover() }()
+					_ = m.Run(context.Background(), "k", func(context.Context) error {
+						close(inside)
+						<-leave
+						switch exit {
+						case "return error":
+							return fmt.Errorf("callback error")
+						case "panic":
+							panic("callback panic")
+						case "goexit":
+							runtime.Goexit()
+						}
+						return nil
+					})
+				}()
+				<-inside
+				got := make(chan bool, waiters)
+				for w := 0; w < waiters; w++ {
+					go func() {
+						ctx, cancel := context.WithTimeout(context.Background(), 20*time.Second)
+						defer cancel()
+						ok := m.Lock(ctx, "k")
+						if ok {
+							m.Unlock("k")
+						}
+						got <- ok
+					}()
+				}
+				if waiters > 0 {
+					// let the waiters queue up (they cannot acquire before the callback is left); not a verdict
+					for spin := 0; spin < 200; spin++ {
+						runtime.Gosched()
+					}
+					time.Sleep(2 * time.Millisecond)
+				}
+				close(leave)
+				<-done
+				bad := ""
+				for w := 0; w < waiters && bad == ""; w++ {
+					if !<-got {
+						bad = fmt.Sprintf("a caller waiting for the key did not get it within 20 s after the Run callback was left by %s", exit)
+					}
+				}
+				if bad == "" {
+					ctx, cancel := context.WithTimeout(context.Background(), 5*time.Second)
+					if !m.Lock(ctx, "k") {
+						bad = fmt.Sprintf("the key is still locked after the Run callback was left by %s: a fresh Lock did not succeed within 5 s", exit)
+					} else {
+						m.Unlock("k")
+					}
+					cancel()
+				}
+				if bad == "" {
+					if n := m.VerifLen(); n != 0 {
+						bad = fmt.Sprintf("nobody holds or awaits a lock, but the map retains %d entries after the Run callback was left by %s", n, exit)
+					}
+				}
+				if bad != "" {
+					run.Violation("runexit", i, bad, map[string]any{"exit": exit, "waiters": waiters})
+				}
+				run.Case(common.Hash64("runexit", exit, fmt.Sprint(waiters, rep)), waiters > 0)
+				run.Count("run_callback_exits."+strings.ReplaceAll(exit, " ", "_"), 1)
+			}
+		}
 	}
 }
 
